@@ -89,7 +89,7 @@ var sessFamilies = map[string]SessFamily{
 	"genconfig":   {"genconfig", "MC_GenConfig", []string{"C16"}, false},
 	"gendet":      {"gendet", "MC_GenDet", []string{"C14"}, false},
 	"gensort":     {"gensort", "MC_GenSort", []string{"C15"}, false},
-	"gensep":      {"gensep", "MC_GenSep", []string{"C13"}, false},
+	"gensep":      {"gensep", "MC_GenSep", []string{"C13", "C01"}, false},
 	"genaddr":     {"genaddr", "MC_GenAddr", []string{"C11"}, false},
 	"boundary":    {"boundary", "MC_Boundary", []string{"C19", "nodrift"}, false},
 	"custom":      {"custom", "MC_Custom", []string{"C17"}, false},
